@@ -109,7 +109,7 @@ class RefLP:
 def vec_views(x, r):
     """Views covering the whole vector in and out of order, and partial ones."""
     n = x.size
-    vs = [x, x[:], x[::-1], x[0:n]]
+    vs = [x, x[:], x[::-1], x[::-1], x[0:n]]
     if n >= 2:
         vs += [x[0:n - 1], x[1:n], x[::2]]
     return vs
@@ -234,7 +234,7 @@ def run(rep: vk.Report):
     NAME = {SolverStatus.OPTIMAL: "OPTIMAL", SolverStatus.INFEASIBLE: "INFEASIBLE", SolverStatus.UNBOUNDED: "UNBOUNDED",
             SolverStatus.MAX_ITERATIONS: "MAX_ITERATIONS", SolverStatus.FAILED: "FAILED"}
     REF = {0: "OPTIMAL", 1: "MAX_ITERATIONS", 2: "INFEASIBLE", 3: "UNBOUNDED", 4: "FAILED"}
-    n = 120 if rep.tier == "quick" else 3000
+    n = 220 if rep.tier == "quick" else 3000
     seam = Cases("linprog-seam", IMPORTS, SEAM_TYPE, SEAM_CHECKER, defs=DEFS)
     diffs = 0
     solved = 0
